@@ -338,6 +338,13 @@ class MessageQueue(Entity):
 
         return delivery_event
 
+    def _discard_pending(self, message_id: str) -> None:
+        """Remove a message ID from the pending queue if it is there."""
+        try:
+            self._pending_queue.remove(message_id)
+        except ValueError:
+            pass
+
     def acknowledge(self, message_id: str) -> None:
         """Acknowledge successful processing of a message.
 
@@ -350,8 +357,11 @@ class MessageQueue(Entity):
         msg = self._messages[message_id]
         msg.state = MessageState.ACKNOWLEDGED
 
-        # Remove from in-flight and messages
+        # Remove from in-flight and messages. The message may also be back in
+        # the pending queue (late ack after schedule_redelivery); a stale id
+        # left there would block the head of the queue forever.
         self._in_flight.pop(message_id, None)
+        self._discard_pending(message_id)
         self._messages.pop(message_id, None)
         self._redelivery_scheduled.discard(message_id)
 
@@ -371,8 +381,10 @@ class MessageQueue(Entity):
         msg.state = MessageState.REJECTED
         self._messages_rejected += 1
 
-        # Remove from in-flight
+        # Remove from in-flight (and from pending, if a timeout already moved
+        # it back there) so the id lives in exactly one place afterwards.
         self._in_flight.pop(message_id, None)
+        self._discard_pending(message_id)
 
         if requeue and msg.delivery_count < self._max_redeliveries:
             # Requeue for redelivery
